@@ -135,8 +135,24 @@ class Result:
 
 
 # --------------------------------------------------------------- rc units
+PY = "/opt/veriftools/pyvenv/bin/python"
+
+
 def harness_path(name):
     return os.path.join(build.BUILD, "harness", name)
+
+
+def harness_cmd(name):
+    """command prefix of a harness: C++ binary, or a Hypothesis driver for names 'py:<module>'"""
+    if name.startswith("py:"):
+        return [PY, os.path.join(VERIF, "py", name[3:] + ".py")]
+    return [harness_path(name)]
+
+
+def harness_exists(name):
+    if name.startswith("py:"):
+        return os.path.exists(os.path.join(VERIF, "py", name[3:] + ".py"))
+    return os.path.exists(harness_path(name))
 
 
 def replay_file(path, times=3, env=None, timeout_ms=None, prop=None, sweep=1):
@@ -145,7 +161,10 @@ def replay_file(path, times=3, env=None, timeout_ms=None, prop=None, sweep=1):
         env["VERIF_PROP"] = prop
     d = json.load(open(path))
     h = d["harness"]
-    cmd = [harness_path(h), "--replay", path, "--times", str(times), "--sweep", str(sweep)]
+    cmd = harness_cmd(h) + ["--replay", path, "--times", str(times), "--sweep", str(sweep)]
+    if h.startswith("py:"):
+        env = dict(env or os.environ)
+        env.setdefault("VERIF_TMP", os.path.join(build.BUILD, "tmp"))
     if timeout_ms:
         cmd += ["--timeout-ms", str(timeout_ms)]
     p = subprocess.run(cmd, stdout=subprocess.PIPE, stderr=subprocess.DEVNULL, text=True, env=env)
@@ -253,12 +272,14 @@ def replay_tier(res, prop, findings, corpus_dir):
             d = json.load(open(p))
         except Exception:
             continue
-        if "harness" not in d or not os.path.exists(harness_path(d["harness"])):
+        if "harness" not in d or not harness_exists(d["harness"]):
             continue
         f = by_replay.get(os.path.abspath(p))
         # saved schedule seeds reproduce only on an identical binary: sweep the
         # following schedule seeds of the same case as well
-        r = replay_file(p, 1, prop=prop, sweep=int(d.get("sweep", 100)))
+        r = replay_file(p, 1, prop=prop, sweep=int(d.get("sweep", 1 if d["harness"].startswith("py:") else 100)))
+        if d["harness"].startswith("py:") and r["fails"] >= 1:
+            r["fails"] = 2  # deterministic subject: one failing replay is a reproduction
         res.replayed += r["runs"]
         if r["fails"] >= 2:
             if f is not None and f.status == "known":
